@@ -28,7 +28,8 @@ Record vans := {
 }.
 
 Record query := {
-  q_kind : Z;              (* 1 delegate, 2 undelegate, 3 withdraw *)
+  q_kind : Z;              (* 1 delegate, 2 undelegate, 3 withdraw, 4 redelegate: unbond at the source validator,
+                              5 redelegate: delegate at the destination validator *)
   q_val : addr;
   q_arg : Z;
   q_start : option start_rec;
@@ -131,19 +132,84 @@ Section Follow.
           Ok (env_next e q, set_stake s3 k5)
     end.
 
+  (* the three parts of BeginRedelegation *)
+  (* Unbond at the source validator: hook reward, shares down, record + index + starting info removed or re-set *)
+  Definition unbond_at (s : state) (a v : addr) (rest : Z) (ans : vans) : state :=
+    let s1 := credit a (bond_denom (cfg s)) (a_reward ans) s in
+    let k := stake s1 in
+    if rest =? 0
+    then set_dels_start s1 (sdel k2_eqb (a, v) (dels k)) (sdel k2_eqb (a, v) (idx71 k)) (sdel k2_eqb (a, v) (start s1))
+    else set_dels_start s1 (sset k2_eqb (a, v) {| d_del := a; d_val := v; d_shares := rest |} (dels k))
+                           (sset k2_eqb (a, v) tt (idx71 k))
+                           (sset k2_eqb (a, v) (a_start ans) (start s1)).
+
+  (* Delegate at the destination validator with tokens that are already staked (no coins from the account) *)
+  Definition delegate_at (s : state) (a w : addr) (ans : vans) : state :=
+    let old := sget k2_eqb (a, w) (dels (stake s)) in
+    let s2 := match old with Some _ => credit a (bond_denom (cfg s)) (a_reward ans) s | None => s end in
+    let shw := match old with Some x => d_shares x | None => 0 end in
+    set_dels_start s2
+      (sset k2_eqb (a, w) {| d_del := a; d_val := w; d_shares := shw + a_amt ans |} (dels (stake s2)))
+      (sset k2_eqb (a, w) tt (idx71 (stake s2)))
+      (sset k2_eqb (a, w) (a_start ans) (start s2)).
+
+  (* SetRedelegationEntry (entries are only ever appended) + InsertRedelegationQueue *)
+  Definition red_entry_at (s : state) (a v w : addr) (entry : red_entry) : state :=
+    let k := stake s in
+    let old := sget k3_eqb (a, (v, w)) (reds k) in
+    let olde := match old with Some x => r_entries x | None => [] end in
+    let kk := match old with Some x => (r_del x, (r_src x, r_dst x)) | None => (a, (v, w)) end in
+    let rec' := {| r_del := fst kk; r_src := fst (snd kk); r_dst := snd (snd kk); r_entries := olde ++ [entry] |} in
+    let q' := sset Z.eqb (re_time entry) (qget (re_time entry) (redq k) ++ [kk]) (redq k) in
+    set_stake s (set_unbidx (set_red k (sset k3_eqb kk rec' (reds k)) (sset k3_eqb kk tt (idx35 k))
+                                     (sset k3_eqb kk tt (idx36 k)) q')
+                            (sset Z.eqb (re_id entry) (UKred (fst kk) (fst (snd kk)) (snd (snd kk))) (unbidx k))).
+
+  (* HasReceivingRedelegation(a, v): a redelegation of a INTO validator v is pending (by-destination index 0x36) *)
+  Definition receiving (s : state) (a v : addr) : bool :=
+    existsb (fun kv : k3 * unit => (fst (fst kv) =? a) && (snd (snd (fst kv)) =? v)) (idx36 (stake s)).
+
+  (* BeginRedelegation: no self-redelegation, no pending redelegation INTO the source validator, max entries,
+     Unbond at the source, Delegate at the destination with the returned tokens, SetRedelegationEntry,
+     InsertRedelegationQueue.  Source and destination validator bonded (no pool movement). *)
+  Definition f_redelegate (e : env) (s : state) (a v w : addr) (shares : Z) : outcome (env * state) :=
+    if v =? w then Err EProposal
+    else if receiving s a v then Err EProposal
+    else match sget k2_eqb (a, v) (dels (stake s)) with
+    | None => Err EProposal
+    | Some r =>
+      if d_shares r <? shares then Err EProposal
+      else
+        let q1 := mkq 4 s a v shares in
+        let ans1 := ask e q1 in
+        let e1 := env_next e q1 in
+        let olde := match sget k3_eqb (a, (v, w)) (reds (stake s)) with Some x => r_entries x | None => [] end in
+        if a_max ans1 <=? Z.of_nat (length olde) then Err EProposal
+        else
+          let sA := unbond_at s a v (d_shares r - shares) ans1 in
+          let q2 := mkq 5 sA a w (a_amt ans1) in
+          let ans2 := ask e1 q2 in
+          let sB := delegate_at sA a w ans2 in
+          let entry := {| re_height := height s; re_time := a_time ans2; re_init := a_amt ans1; re_shares := a_amt ans2;
+                          re_id := a_id ans2; re_hold := 0 |} in
+          Ok (env_next e1 q2, red_entry_at sB a v w entry)
+    end.
+
   Inductive fop :=
   | FDelegate (a v : addr) (amt : Z)
   | FUndelegate (a v : addr) (shares : Z)
-  | FWithdraw (a v : addr).
+  | FWithdraw (a v : addr)
+  | FRedelegate (a v w : addr) (shares : Z).
 
   Definition factor (o : fop) : addr :=
-    match o with FDelegate a _ _ => a | FUndelegate a _ _ => a | FWithdraw a _ => a end.
+    match o with FDelegate a _ _ => a | FUndelegate a _ _ => a | FWithdraw a _ => a | FRedelegate a _ _ _ => a end.
 
   Definition fstep (e : env) (s : state) (o : fop) : outcome (env * state) :=
     match o with
     | FDelegate a v amt => f_delegate e s a v amt
     | FUndelegate a v sh => f_undelegate e s a v sh
     | FWithdraw a v => f_withdraw e s a v
+    | FRedelegate a v w sh => f_redelegate e s a v w sh
     end.
 
   (* a failed transaction leaves everything as it was *)
